@@ -442,3 +442,255 @@ Lemma old_pad_refuted_empty_pad :         (* lpad / rpad ('abc', 2, '') = 'abc' 
   Old.impl_lpad 100 [97; 98; 99] 2 [] = Ok [97; 98; 99] /\ Old.impl_rpad 100 [97; 98; 99] 2 [] = Ok [97; 98; 99] /\
   spec_lpad [97; 98; 99] 2 [] = [97; 98] /\ spec_rpad [97; 98; 99] 2 [] = [97; 98].
 Proof. repeat split; vm_compute; reflexivity. Qed.
+
+(* ================= round 3: the remaining functions ================= *)
+
+(* ---- translate: the HashMap construction = "first occurrence in `from` decides" ---- *)
+Lemma map_lookup_snoc c m k v :
+  map_lookup c (m ++ [(k, v)]) =
+  match map_lookup c m with Some x => Some x | None => if k =? c then Some v else None end.
+Proof.
+  induction m as [|[k0 v0] m IH]; cbn [app map_lookup]; [reflexivity|].
+  destruct (k0 =? c); [reflexivity|exact IH].
+Qed.
+
+Lemma build_map_lookup c to from : forall i m,
+  map_lookup c (build_map from to i m) =
+  match map_lookup c m with
+  | Some v => Some v
+  | None => match index_of c from with Some j => Some (nthN to (i + j)) | None => None end
+  end.
+Proof.
+  induction from as [|c0 r IH]; intros i m; cbn [build_map index_of].
+  - destruct (map_lookup c m); reflexivity.
+  - rewrite IH. destruct (map_lookup c0 m) as [v0|] eqn:L0.
+    + destruct (map_lookup c m) as [v|] eqn:L; [reflexivity|].
+      destruct (c0 =? c) eqn:E; [apply N.eqb_eq in E; subst; congruence|].
+      destruct (index_of c r) as [j|]; cbn [option_map]; [|reflexivity].
+      do 2 f_equal. lia.
+    + rewrite map_lookup_snoc. destruct (map_lookup c m) as [v|] eqn:L; [reflexivity|].
+      destruct (c0 =? c) eqn:E.
+      * rewrite N.add_0_r. reflexivity.
+      * destruct (index_of c r) as [j|]; cbn [option_map]; [|reflexivity]. do 2 f_equal. lia.
+Qed.
+
+Lemma translate_correct cs from to : translate_map cs from to = Ok (spec_translate cs from to).
+Proof.
+  unfold translate_map, spec_translate. f_equal. apply flat_map_ext. intros c.
+  rewrite build_map_lookup. cbn [map_lookup]. rewrite N.add_0_l || idtac.
+  destruct (index_of c from) as [j|]; [|reflexivity].
+  replace (0 + j) with j by lia. destruct (nthN to j); reflexivity.
+Qed.
+
+(* ---- repeat: the push loop = n copies ---- *)
+Lemma concat_repeat_comm (cs : list N) k : concat (repeat cs k) ++ cs = cs ++ concat (repeat cs k).
+Proof.
+  induction k as [|k IH]; cbn [repeat concat]; [rewrite app_nil_r; reflexivity|].
+  rewrite <- app_assoc, IH. reflexivity.
+Qed.
+
+Lemma repeat_correct cs num : impl_repeat cs num = Ok (spec_repeat_copies cs num).
+Proof.
+  unfold impl_repeat, spec_repeat_copies, repN. f_equal.
+  rewrite N2Nat.inj_iter. induction (N.to_nat (Z.to_N num)) as [|k IH]; [reflexivity|].
+  change (Nat.iter (S k) (fun a : list N => a ++ cs) [])
+    with ((fun a : list N => a ++ cs) (Nat.iter k (fun a : list N => a ++ cs) [])).
+  cbv beta. rewrite IH. cbn [repeat concat]. apply concat_repeat_comm.
+Qed.
+
+(* ---- trim family: what is removed is a run of characters of the set, and it is maximal ---- *)
+Definition in_set (set : list N) (c : N) : bool := existsb (N.eqb c) set.
+
+Lemma ltrim_spec cs set : exists pre,
+  cs = pre ++ spec_ltrim cs set /\ forallb (in_set set) pre = true /\
+  match spec_ltrim cs set with [] => True | c :: _ => in_set set c = false end.
+Proof.
+  unfold spec_ltrim. induction cs as [|c r IH].
+  - exists []. repeat split.
+  - cbn [trim_set_start]. fold (in_set set c). destruct (in_set set c) eqn:E.
+    + destruct IH as (pre & H1 & H2 & H3). exists (c :: pre). split; [cbn [app]; congruence|].
+      split; [cbn [forallb]; rewrite E, H2; reflexivity|exact H3].
+    + exists []. repeat split. exact E.
+Qed.
+
+Lemma rtrim_spec cs set : exists post,
+  cs = spec_rtrim cs set ++ post /\ forallb (in_set set) post = true /\
+  match rev (spec_rtrim cs set) with [] => True | c :: _ => in_set set c = false end.
+Proof.
+  unfold spec_rtrim. destruct (ltrim_spec (rev cs) set) as (pre & H1 & H2 & H3). unfold spec_ltrim in *.
+  exists (rev pre). split; [|split].
+  - rewrite <- rev_app_distr, <- H1, rev_involutive. reflexivity.
+  - rewrite forallb_forall in *. intros x Hx. apply H2, in_rev, Hx.
+  - rewrite rev_involutive. exact H3.
+Qed.
+
+(* ---- split_part: as written ---- *)
+Lemma split_part_positive_correct cs d n : (0 < n)%Z ->
+  option_map Ok (spec_split_part cs d n) = Some (impl_split_part cs d n).
+Proof.
+  intros H. unfold spec_split_part, impl_split_part.
+  destruct (n =? 0)%Z eqn:E0; [lia|]. destruct (is_nil d).
+  - cbn [option_map]. destruct (n =? 1)%Z eqn:E1; [reflexivity|].
+    destruct (n =? -1)%Z eqn:E2; [lia|reflexivity].
+  - destruct (0 <? n)%Z eqn:E3; [reflexivity|lia].
+Qed.
+
+(* the three remaining deviations (the known findings about split_part) *)
+Lemma split_part_zero_deviation cs d : impl_split_part cs d 0 = Ok [] /\ spec_split_part cs d 0 = None.
+Proof. unfold impl_split_part, spec_split_part. cbn. destruct (is_nil d); split; reflexivity. Qed.
+
+Lemma split_part_empty_delimiter_deviation cs :
+  impl_split_part cs [] (-1) = Ok [] /\ spec_split_part cs [] (-1) = Some cs.
+Proof. split; reflexivity. Qed.
+
+Lemma split_part_overlap_deviation :     (* split_part('aaa', 'aa', -1) *)
+  impl_split_part [97; 97; 97] [97; 97] (-1) = Ok [] /\ spec_split_part [97; 97; 97] [97; 97] (-1) = Some [97].
+Proof. split; vm_compute; reflexivity. Qed.
+
+(* ---- results are valid UTF-8 ---- *)
+Lemma valid_flat_map (f : N -> list N) cs : (forall c, cp_valid c -> cps_valid (f c)) ->
+  cps_valid cs -> cps_valid (flat_map f cs).
+Proof.
+  unfold cps_valid. intros Hf V. induction V as [|c cs Vc _ IH]; [constructor|].
+  cbn [flat_map]. apply Forall_app. split; [apply Hf, Vc|exact IH].
+Qed.
+
+Lemma valid_repl_go from to cs : cps_valid to -> forall k, cps_valid cs -> cps_valid (repl_go cs from to k).
+Proof.
+  unfold cps_valid. intros Vt. induction cs as [|c r IH]; intros k V; [constructor|].
+  inversion V; subst. cbn [repl_go]. destruct k; [|apply IH; assumption].
+  destruct (starts_with (c :: r) from).
+  - apply Forall_app. split; [exact Vt|apply IH; assumption].
+  - constructor; [assumption|apply IH; assumption].
+Qed.
+
+Lemma replace_valid cs from to r : cps_valid cs -> cps_valid to ->
+  impl_replace cs from to = Ok r -> utf8_validb (encode r) = true.
+Proof.
+  intros V Vt H. inversion H; subst. apply encode_valid. unfold spec_replace.
+  destruct (is_nil from); [exact V|apply valid_repl_go; assumption].
+Qed.
+
+Lemma nthN_in l : forall i y, nthN l i = Some y -> In y l.
+Proof.
+  induction l as [|x l IH]; intros i y H; [discriminate|]. cbn [nthN] in H.
+  destruct (i =? 0); [inversion H; left; reflexivity|right; eapply IH, H].
+Qed.
+
+Lemma translate_valid cs from to r : cps_valid cs -> cps_valid to ->
+  translate_map cs from to = Ok r -> utf8_validb (encode r) = true.
+Proof.
+  intros V Vt H. rewrite translate_correct in H. inversion H; subst. apply encode_valid.
+  unfold spec_translate. apply valid_flat_map; [|exact V]. intros c Vc.
+  destruct (index_of c from) as [j|]; [|constructor; [exact Vc|constructor]].
+  destruct (nthN to j) as [y|] eqn:E; [|constructor].
+  constructor; [|constructor]. unfold cps_valid in Vt. rewrite Forall_forall in Vt.
+  apply Vt. eapply nthN_in, E.
+Qed.
+
+Lemma valid_trim_start set cs : cps_valid cs -> cps_valid (trim_set_start set cs).
+Proof.
+  unfold cps_valid. induction 1 as [|c r Vc V IH]; [constructor|].
+  cbn [trim_set_start]. destruct (existsb (N.eqb c) set); [exact IH|constructor; assumption].
+Qed.
+
+Lemma trim_valid cs set : cps_valid cs ->
+  utf8_validb (encode (spec_ltrim cs set)) = true /\ utf8_validb (encode (spec_rtrim cs set)) = true /\
+  utf8_validb (encode (spec_btrim cs set)) = true.
+Proof.
+  intros V. assert (L : cps_valid (spec_ltrim cs set)) by apply valid_trim_start, V.
+  assert (R : forall x, cps_valid x -> cps_valid (spec_rtrim x set)).
+  { intros x Vx. unfold spec_rtrim. apply valid_rev, valid_trim_start, valid_rev, Vx. }
+  repeat split; apply encode_valid; [exact L|apply R, V|apply R, L].
+Qed.
+
+Lemma concat_repeat_valid a b n : cps_valid a -> cps_valid b ->
+  utf8_validb (encode (spec_concat a b)) = true /\ utf8_validb (encode (spec_repeat_copies a n)) = true.
+Proof.
+  intros Va Vb. split; apply encode_valid.
+  - apply pad_valid_app; assumption.
+  - unfold spec_repeat_copies. induction (N.to_nat (Z.to_N n)) as [|k IH]; [constructor|].
+    cbn [repeat concat]. apply pad_valid_app; assumption.
+Qed.
+
+(* ---- case mapping, ASCII rows ---- *)
+Lemma flat_map_single (f : N -> N) cs : flat_map (fun c => [f c]) cs = map f cs.
+Proof. induction cs as [|c cs IH]; [reflexivity|]. cbn [flat_map map app]. rewrite IH. reflexivity. Qed.
+
+Lemma upper_ascii_correct cs : upper_ascii cs = Ok (spec_upper_ascii cs).
+Proof. unfold upper_ascii, impl_upper, up1, spec_upper_ascii. rewrite flat_map_single. reflexivity. Qed.
+Lemma lower_ascii_correct cs : lower_ascii cs = Ok (spec_lower_ascii cs).
+Proof. unfold lower_ascii, impl_lower, lo1, spec_lower_ascii. rewrite flat_map_single. reflexivity. Qed.
+
+Lemma ascii_upper_bound c : c < 0x80 -> ascii_upper c < 0x80.
+Proof. unfold ascii_upper. destruct ((97 <=? c) && (c <=? 122)) eqn:E; lia. Qed.
+Lemma ascii_lower_bound c : c < 0x80 -> ascii_lower c < 0x80.
+Proof. unfold ascii_lower. destruct ((65 <=? c) && (c <=? 90)) eqn:E; lia. Qed.
+
+Lemma ascii_valid cs : is_ascii cs = true -> cps_valid cs.
+Proof.
+  unfold is_ascii, cps_valid. rewrite forallb_forall, Forall_forall. intros H x Hx.
+  specialize (H x Hx). unfold cp_valid, cp_validb. lia.
+Qed.
+
+Lemma case_ascii_properties cs : is_ascii cs = true ->
+  is_ascii (spec_upper_ascii cs) = true /\ is_ascii (spec_lower_ascii cs) = true /\
+  length (spec_upper_ascii cs) = length cs /\ length (spec_lower_ascii cs) = length cs /\
+  spec_upper_ascii (spec_upper_ascii cs) = spec_upper_ascii cs /\
+  spec_lower_ascii (spec_upper_ascii cs) = spec_lower_ascii cs /\
+  utf8_validb (encode (spec_upper_ascii cs)) = true /\ utf8_validb (encode (spec_lower_ascii cs)) = true.
+Proof.
+  intros A. unfold spec_upper_ascii, spec_lower_ascii.
+  assert (U : is_ascii (map ascii_upper cs) = true).
+  { unfold is_ascii in *. rewrite forallb_forall in *. intros x Hx. apply in_map_iff in Hx as (c & <- & Hc).
+    specialize (A c Hc). pose proof (ascii_upper_bound c). lia. }
+  assert (L : is_ascii (map ascii_lower cs) = true).
+  { unfold is_ascii in *. rewrite forallb_forall in *. intros x Hx. apply in_map_iff in Hx as (c & <- & Hc).
+    specialize (A c Hc). pose proof (ascii_lower_bound c). lia. }
+  split; [exact U|]. split; [exact L|]. split; [apply map_length|]. split; [apply map_length|].
+  split; [|split].
+  - rewrite map_map. apply map_ext. intros c. unfold ascii_upper.
+    destruct ((97 <=? c) && (c <=? 122)) eqn:E; [|rewrite E; reflexivity].
+    destruct ((97 <=? c - 32) && (c - 32 <=? 122)) eqn:E2; [lia|reflexivity].
+  - rewrite map_map. apply map_ext. intros c. unfold ascii_upper, ascii_lower.
+    destruct ((97 <=? c) && (c <=? 122)) eqn:E.
+    + destruct ((65 <=? c - 32) && (c - 32 <=? 90)) eqn:E2; [|lia].
+      destruct ((65 <=? c) && (c <=? 90)) eqn:E3; lia.
+    + reflexivity.
+  - split; apply encode_valid, ascii_valid; assumption.
+Qed.
+
+(* initcap: full statement `initcap_ascii cs = Ok (spec_initcap_ascii cs)` is refuted (initcap_refuted:
+   'a+b'); it holds when every non-alphanumeric character is one of the separators initcap.rs knows *)
+Lemma initcap_go_correct cs : forall cap prev, cap = negb prev -> initcap_seps_known cs = true ->
+  initcap_go up1 lo1 ascii_alpha ascii_space cap cs = spec_initcap_go prev cs.
+Proof.
+  unfold initcap_seps_known. induction cs as [|c r IH]; intros cap prev E K; [reflexivity|].
+  cbn [forallb] in K. apply andb_true_iff in K as [Kc K].
+  cbn [initcap_go spec_initcap_go]. destruct (ascii_alpha c) eqn:A.
+  - cbn [orb]. rewrite (IH false true eq_refl K). subst cap. destruct prev; reflexivity.
+  - cbn [orb] in *. destruct (ascii_digit c) eqn:D.
+    + assert (S : is_sep ascii_space c = false).
+      { unfold is_sep, ascii_space, ascii_digit in *. lia. }
+      rewrite S, (IH false true eq_refl K).
+      assert (U : ascii_upper c = c) by (unfold ascii_upper, ascii_digit in *; destruct ((97 <=? c) && (c <=? 122)) eqn:X; lia).
+      assert (Lc : ascii_lower c = c) by (unfold ascii_lower, ascii_digit in *; destruct ((65 <=? c) && (c <=? 90)) eqn:X; lia).
+      rewrite U, Lc. destruct prev; reflexivity.
+    + cbn [orb] in Kc. rewrite Kc, (IH true false eq_refl K).
+      assert (U : ascii_upper c = c) by (unfold ascii_upper, ascii_alpha in *; destruct ((97 <=? c) && (c <=? 122)) eqn:X; lia).
+      assert (Lc : ascii_lower c = c) by (unfold ascii_lower, ascii_alpha in *; destruct ((65 <=? c) && (c <=? 90)) eqn:X; lia).
+      rewrite U, Lc. destruct prev; reflexivity.
+Qed.
+
+Lemma initcap_correct_partial cs : initcap_seps_known cs = true ->
+  initcap_ascii cs = Ok (spec_initcap_ascii cs).
+Proof.
+  intros K. unfold initcap_ascii, impl_initcap, spec_initcap_ascii. f_equal.
+  apply initcap_go_correct; [reflexivity|exact K].
+Qed.
+
+Example initcap_hyp_sat : initcap_seps_known [104; 105; 32; 120; 95; 49; 121] = true. Proof. reflexivity. Qed.
+
+Lemma initcap_refuted :       (* initcap('a+b') = 'A+b', the definition says 'A+B' *)
+  initcap_ascii [97; 43; 98] = Ok [65; 43; 98] /\ spec_initcap_ascii [97; 43; 98] = [65; 43; 66].
+Proof. split; vm_compute; reflexivity. Qed.
